@@ -28,6 +28,7 @@ EXPLANATION = (
   ' (FIN-rollup) the number of lines kept when a roll-up caption rolls is depth - 1 for every depth RU2, RU3, RU4;'
   ' (STYLE-complete) wherever the context replaces one of colour / italics / underline unconditionally it replaces all three, so an attribute switched off by a PAC or a first mid-row code does not leak onto later text;'
   ' (FIN-parse) a parsed SMPTE label counts at the rate it was given (`:`), or at the matching drop-frame rate (`;`): see C12;'
+  ' (LINT-k) no instance field declared with a numeric type is tested by truthiness (the number 0 would count as `not set`);'
 )
 RULE_TEXT = "per code class, per control code, per decoder-state call, per style property x caption style"
 UNDECIDED = ["everything the statement says about *what is displayed when*: pop-on flip, roll-up window depth, paint-on accumulation, cursor / backspace arithmetic, "
@@ -365,4 +366,5 @@ def run(ctx):
   check_attribute_sets(ctx)
   from . import c12 as _c12
   _c12.check_parse_rate(ctx)
+  common.check_numeric_fields(ctx, [n for n in ctx.ix.modules if n.startswith("ttconv.scc")])
   common.check_history_independence(ctx, [n for n in ctx.ix.modules if n.startswith("ttconv.scc")] + ["ttconv.time_code"])
